@@ -1493,6 +1493,12 @@ class DiskRefsContainer(RefsContainer):
                 if orig_ref != old_ref:
                     return False
 
+            # Remove the packed entry first, like git: while the loose file is
+            # still there it shadows the packed one, so neither a reader nor a
+            # crash (nor a held packed-refs.lock, which raises here) can bring
+            # a stale packed value back.
+            self._remove_packed_ref(name)
+
             # remove the reference file itself
             try:
                 found = os.path.lexists(filename)
@@ -1503,7 +1509,6 @@ class DiskRefsContainer(RefsContainer):
             if found:
                 os.remove(filename)
 
-            self._remove_packed_ref(name)
             self._log(
                 name,
                 old_ref,
@@ -2058,12 +2063,13 @@ class locked_ref:
         # Delete the actual ref file while holding the lock
         if self._realname:
             filename = self._refs_container.refpath(self._realname)
+            # packed entry first (see DiskRefsContainer.remove_if_equals)
+            self._refs_container._remove_packed_ref(self._realname)
             try:
                 if os.path.lexists(filename):
                     os.remove(filename)
             except FileNotFoundError:
                 pass
-            self._refs_container._remove_packed_ref(self._realname)
 
         self._deleted = True
 
